@@ -143,7 +143,8 @@ def finish(ctx, res, level="model_checking"):
     classes = {}
     for v in real:
         classes.setdefault(v.digest(), v)
-    rdir = os.path.join(VERIF, "replays", ctx.prop)
+    outroot = os.environ.get("VERIF_OUT", VERIF)
+    rdir = os.path.join(outroot, "replays", ctx.prop)
     lines = 0
     for dg, v in classes.items():
         os.makedirs(rdir, exist_ok=True)
@@ -182,8 +183,8 @@ def finish(ctx, res, level="model_checking"):
         "wall_s": round(wall, 2),
         "violations": len(real),
     }
-    os.makedirs(os.path.join(VERIF, "evidence"), exist_ok=True)
-    with open(os.path.join(VERIF, "evidence", ctx.prop + ".json"), "w") as f:
+    os.makedirs(os.path.join(outroot, "evidence"), exist_ok=True)
+    with open(os.path.join(outroot, "evidence", ctx.prop + ".json"), "w") as f:
         json.dump(ev, f, indent=1, default=str)
     print("%s tier=%s seed=%d states=%d transitions=%d impl_executions=%d outcomes=%d "
           "unspecified=%d known=%d violations=%d exhaustive=%s wall=%.1fs"
